@@ -171,6 +171,55 @@ func (f *coreForest) processReusing(ctx *core.Context, other, loc string, ev map
 	return vs, nil
 }
 
+// faultyProvider cannot open one of the locations (its storage is down, its record won't load).
+type faultyProvider struct {
+	inner core.LocationProvider
+	fail  string
+}
+
+func (p *faultyProvider) GetLocation(ctx *core.Context, name string) (*core.Location, error) {
+	if name == p.fail {
+		return nil, fmt.Errorf("cannot open location %s: injected fault", name)
+	}
+	return p.inner.GetLocation(ctx, name)
+}
+
+// ancestorFault: while the ancestor `bad` cannot be opened, every inherited operation at l must
+// report an error (not answer as if the ancestor held nothing); afterwards everything is as before.
+func (f *coreForest) ancestorFault(r *rep.Report, l, bad string, wit rep.J) {
+	old := map[string]core.LocationProvider{}
+	for n, loc := range f.locs {
+		old[n] = loc.Provider
+		loc.Provider = &faultyProvider{loc.Provider, bad}
+	}
+	defer func() {
+		for n, loc := range f.locs {
+			loc.Provider = old[n]
+		}
+	}()
+	ctx := drv.Ctx()
+	loc := f.locs[l]
+	outs := map[string]error{}
+	_, outs["inherited search"] = loc.SearchFacts(ctx, core.Map{"k": "?v"}, true)
+	_, outs["query"] = loc.Query(ctx, `{"pattern":{"k":"?v"}}`)
+	_, outs["inherited rule search"] = loc.SearchRules(ctx, core.Map{"e": "go"}, true)
+	if _, cond := loc.ProcessEvent(ctx, core.Map{"e": "go"}); cond != nil {
+		outs["event"] = fmt.Errorf("%s", cond.Msg)
+	} else {
+		outs["event"] = nil
+	}
+	for name, err := range outs {
+		r.Count("ancestor_fault_probes", 1)
+		if err == nil {
+			w := rep.J{"operation": name, "at": l, "ancestor_that_cannot_be_opened": bad}
+			for k, v := range wit {
+				w[k] = v
+			}
+			r.Violate("", name+" at a location succeeded although one of its ancestors could not be opened (its facts and rules are silently missing)", w)
+		}
+	}
+}
+
 // ---- sys.System ----
 type sysForest struct{ s *sys.System }
 
@@ -266,6 +315,15 @@ func (f *sysForest) processReusing(ctx *core.Context, other, loc string, ev map[
 	}
 	sort.Strings(vs)
 	return vs, nil
+}
+
+func mergeParents(ps map[string][]string, l string, np []string) map[string][]string {
+	out := map[string][]string{}
+	for k, v := range ps {
+		out[k] = v
+	}
+	out[l] = np
+	return out
 }
 
 // ---- model ----
@@ -410,6 +468,10 @@ func campaign(r *rep.Report, e rep.Env) {
 			case k < 5:
 				o.Op, o.Id = "addFact", fmt.Sprintf("%sf%d", factPrefix(hi, l), g.Intn(3))
 				o.Fact = map[string]interface{}{"a": gen.Strs[g.Intn(4)], "k": "v", "at": l}
+				if g.Intn(3) == 0 {
+					// a structured value that a script could write into
+					o.Fact["box"] = map[string]interface{}{"count": 1.0, "tags": []interface{}{"a", "b"}}
+				}
 			case k < 6:
 				o.Op, o.Id = "remFact", fmt.Sprintf("%sf%d", factPrefix(hi, l), g.Intn(3))
 			case k < 9:
@@ -430,9 +492,14 @@ func campaign(r *rep.Report, e rep.Env) {
 			case k < 13:
 				o.Op = "mkEvent"
 				o.Id = fmt.Sprint(s)
-				if g.Intn(3) == 0 {
+				switch g.Intn(4) {
+				case 0:
 					// an event that carries its rule, sent with a Context the client used for another location before
 					o.Op = "embedEvent"
+				case 1:
+					// an event that carries a rule whose condition binds structured values of visible facts
+					// (own and inherited) and whose action writes INTO the bound values
+					o.Op = "mutEvent"
 				}
 			default:
 				// parents only point to higher-numbered locations: chains, fans, diamonds, never a loop;
@@ -457,6 +524,24 @@ func campaign(r *rep.Report, e rep.Env) {
 			}
 			r.Journal(rep.J{"via": via, "state": kind, "hist": hi, "op": o})
 			run = append(run, o)
+			if o.Op == "mutEvent" {
+				ev := map[string]interface{}{"mu": o.Id, "evaluate!": map[string]interface{}{
+					"when":      map[string]interface{}{"pattern": map[string]interface{}{"mu": "?n"}},
+					"condition": map[string]interface{}{"pattern": map[string]interface{}{"box": "?b", "at": "?where"}},
+					"action":    map[string]interface{}{"code": "b.count = b.count + 100; b.tags[0] = 'changed by ' + location; b.added = true; 'wrote into a copy'"}}}
+				if _, loop := m.ancestors(l); loop {
+					continue
+				}
+				_, err := f.process(l, ev)
+				r.Count("events_whose_action_writes_into_bound_values", 1)
+				if err != nil {
+					r.Violate("", "event with a value-mutating action failed: "+err.Error(), rep.J{"via": via, "state": kind, "history": run})
+				}
+				r.Case(true, via+kind+ref.Canon(run))
+				// the bindings are the action's own: no stored fact of any location changes
+				check(r, f, m, names, run, via, kind)
+				continue
+			}
 			if o.Op == "embedEvent" {
 				other := names[(li+1)%nloc]
 				ev := map[string]interface{}{"emb": o.Id, "evaluate!": map[string]interface{}{
@@ -527,6 +612,11 @@ func campaign(r *rep.Report, e rep.Env) {
 				}
 				r.Violate("", "operation failed: "+err.Error(), rep.J{"via": via, "state": kind, "history": run})
 				break
+			}
+			if cf, isCore := f.(*coreForest); isCore && o.Op == "setParents" && len(o.Parents) > 0 {
+				if _, loop := (&model{locs: m.locs, parents: mergeParents(m.parents, l, o.Parents)}).ancestors(l); !loop {
+					cf.ancestorFault(r, l, o.Parents[len(o.Parents)-1], rep.J{"via": via, "state": kind, "history": run})
+				}
 			}
 			ml := m.locs[l]
 			switch o.Op {
